@@ -102,6 +102,20 @@ TcpVector(i) ==
   IN [kind |-> "tcp", i |-> i, sig |-> s, obs |-> obs, ninst |-> Len(inst),
       exp |-> [k \in 1..Len(obs) |-> TcpDist(obs[k], s)]]
 
+\* scalar fields on whole value grids (boundaries of the wire formats: window scale 14 is the largest legal shift, 15 and above go with
+\* the `exws` quirk; MSS 0 / 65535; option-area lengths): signature value x observed value, everything else equal
+ScalBase == [ver |-> "4", ittl |-> TtlV(64), olen |-> 0, mss |-> 1460, wsize |-> W("value", 8192), wscale |-> 7, olayout |-> <<O("mss"), O("nop"), O("ws")>>, quirks |-> <<"df", "exws">>, pclass |-> "0"]
+WsVals == <<-1, 0, 1, 7, 13, 14, 15, 16, 20, 254, 255>>
+MssVals == <<-1, 0, 1, 64, 99, 100, 1337, 1460, 65534, 65535>>
+OlenVals == <<0, 4, 8, 36, 40>>
+ScalVector(f, k) ==
+  LET vals == CASE f = "wscale" -> WsVals [] f = "mss" -> MssVals [] OTHER -> OlenVals
+      sub(r, x) == CASE f = "wscale" -> [r EXCEPT !.wscale = x] [] f = "mss" -> [r EXCEPT !.mss = x] [] OTHER -> [r EXCEPT !.olen = x]
+      s == sub(ScalBase, vals[k])
+      obs == [j \in 1..Len(vals) |-> sub(ScalBase, vals[j])]
+  IN [kind |-> "tcp", i |-> 100000, sig |-> s, obs |-> obs, ninst |-> 0, exp |-> [j \in 1..Len(obs) |-> TcpDist(obs[j], s)]]
+ScalCases == {<<"wscale", k>> : k \in 1..Len(WsVals)} \cup {<<"mss", k>> : k \in 1..Len(MssVals)} \cup {<<"olen", k>> : k \in 2..Len(OlenVals)}
+
 \* HTTP: optional headers in or out (every subset of the first 4 optional ones), software token alone / embedded
 OptIdx(s) == LET all == {i \in 1..Len(s.horder) : s.horder[i].opt} IN {i \in all : Cardinality({j \in all : j < i}) < 4}
 Keep(s, drop) == SelectSeq([i \in 1..Len(s.horder) |-> [h |-> s.horder[i], i |-> i]], LAMBDA e : e.i \notin drop)
@@ -128,5 +142,6 @@ Next == phase = 0 /\ phase' = 1 /\ UNCHANGED shard
 Inv == phase = 1 =>
    /\ \A i \in 1..Len(AllTcp) : (i % Shards = shard) => (InstancesAreInstances(i) /\ PrintT("REPLAY " \o ToJson(TcpVector(i))))
    /\ \A i \in 1..Len(HttpSigs) : (i % Shards = shard) => (HttpInstancesAreInstances(i) /\ PrintT("REPLAY " \o ToJson(HttpVector(i))))
+   /\ \A c \in ScalCases : ((c[2] % Shards) = shard) => PrintT("REPLAY " \o ToJson(ScalVector(c[1], c[2])))
 Spec == Init /\ [][Next]_vars
 =============================================================================
